@@ -481,7 +481,8 @@ def oracle(p):
                         note("disp-" + kind)
                         if dd > lim:
                             k = "linear" if t.linear else "nonrigid"
-                            fail(f"C06:SpatialTransform.disp:{k}:{kind}-grid", f"{name}: disp(grid) on a {kind} grid describes a different world map "
+                            site = "CompositeTransform.disp" if isinstance(t, S.CompositeTransform) else "SpatialTransform.disp"
+                            fail(f"C06:{site}:{k}:{kind}-grid", f"{name}: disp(grid) on a {kind} grid describes a different world map "
                                  f"(max deviation {dd:.3g} relative)", cls=name, D=D, kind=kind)
         except Exception as e:  # noqa
             fail(f"C06:{name}:views:raises:{type(e).__name__}", f"{name}: evaluating the views raises {type(e).__name__}: {str(e)[:200]}", cls=name, D=D,
